@@ -669,6 +669,46 @@ def cst_cast_agreement(run, model, rid):
     run.floor("CST enum wrappers with a kind list", n, 3)
 
 
+def r20_18(run, model):
+    run.rule("R20.18", "queries type-check what the compiler type-checks: wherever a pipeline calls derive::expand, the expanded AST it returns is "
+                       "the one the function goes on with - the Ok payload is bound and used, never dropped in favour of the unexpanded AST "
+                       "(methods added by a derive would be unknown to hover in files that take the package path)")
+    n = 0
+    for rel in ("crates/compiler/src/pipeline/pipeline.rs", QUERY):
+        for f in model.fns(rel):
+            if f.body is None:
+                continue
+            par = None
+            k_ = 0
+            for c in S.walk(f.body):
+                if c["k"] != "Call" or (S.callee_segs(c) or [])[-2:] != ["derive", "expand"]:
+                    continue
+                if par is None:
+                    par = S.Parents(f.body)
+                n += 1
+                k_ += 1
+                p_ = par.parent(c)
+                ok, why = False, "the result is not bound"
+                if p_ is not None and p_["k"] == "Match" and p_["scrut"] is c:
+                    oks = [a for a in p_["arms"] if re.match(r"Ok\((\w+)\)", S.norm_ws(run.facts.text(rel, a["pat"]["sp"])))]
+                    for a in oks:
+                        b = S.pat_bindings(a["pat"])
+                        if b and b[0] in S.idents(a["body"]) and not b[0].startswith("_"):
+                            ok, why = True, f"`Ok({b[0]})` is what the match yields"
+                    if not oks:
+                        why = "no arm binds the expanded AST"
+                elif p_ is not None and p_["k"] == "Try":
+                    ok, why = True, "propagated with `?`"
+                elif p_ is not None and p_["k"] == "Let":
+                    pt = S.norm_ws(run.facts.text(rel, p_["pat"]["sp"]))
+                    ok = pt.startswith("Ok(") and not re.match(r"Ok\(_", pt)
+                    why = f"matched against `{pt[:30]}`"
+                run.ob("R20.18", f"{f.name}|expansion #{k_} of the derives is what the function goes on with", ok, site(rel, c["sp"]), why,
+                       witness="a file with an import and #[derive(ToString)] struct Point: `let s = p.to_string()` hovers as TypeVar(1), hover on "
+                               "to_string answers `no type information found`; the compiler has string and (Point) -> string")
+    run.floor("calls of derive::expand in the pipelines", n, 3)
+
+
 def r20_17(run, model):
     cst_cast_agreement(run, model, "R20.17")
 
@@ -728,6 +768,7 @@ def run(run, model):
     run.try_rule(r20_15, model)
     run.try_rule(r20_16, model)
     run.try_rule(r20_17, model)
+    run.try_rule(r20_18, model)
     from rules import c07
     run.rule("R20.7", "the occurs check looks into every component of every type former (shared with C07 R07.2, restricted to typer::unify): a "
                       "missed component lets a cyclic type through and the next query overflows the stack")
